@@ -176,6 +176,7 @@ func assignConst(p *packages.Package, fd *ast.FuncDecl, name string) (string, bo
 func main() {
 	repo := flag.String("repo", "/repo", "repository root")
 	leanOut := flag.String("lean", "/verif/lean/Emu/Generated/Consts.lean", "generated Lean file")
+	leafOut := flag.String("leaf", "", "directory of generated Lean files of translated leaf predicates (default: Leaf/ next to -lean)")
 	factsOut := flag.String("facts", "-", "facts JSON path")
 	flag.Parse()
 
@@ -188,9 +189,11 @@ func main() {
 		}
 	}
 
+	leafPkgs := map[string]*packages.Package{}
 	if bt, err := load(*repo+"/bigtable", "./bttest"); err != nil {
 		f.Errors = append(f.Errors, err.Error())
 	} else {
+		leafPkgs["bt"] = bt
 		v, ok := pkgConst(bt, "maxValidMilliSeconds")
 		set("maxValidMilliSeconds", v, ok)
 		v, ok = pkgConst(bt, "minValidMilliSeconds")
@@ -214,6 +217,7 @@ func main() {
 	if gcs, err := load(*repo+"/storage", "./gcsemu"); err != nil {
 		f.Errors = append(f.Errors, err.Error())
 	} else {
+		leafPkgs["gcs"] = gcs
 		v, ok := pkgConst(gcs, "gcsMaxComposeSources")
 		set("gcsMaxComposeSources", v, ok)
 		v, ok = pkgConst(gcs, "metaExtention")
@@ -233,6 +237,12 @@ func main() {
 	}
 
 	writeLean(*leanOut, f)
+	if *leafOut == "" {
+		*leafOut = strings.TrimSuffix(*leanOut, "Consts.lean") + "Leaf"
+	}
+	if strings.HasSuffix(*leanOut, ".lean") {
+		writeLeaf(*leafOut, leafPkgs, f)
+	}
 	sort.Strings(f.Unavailable)
 	b, _ := json.MarshalIndent(f, "", " ")
 	if *factsOut == "-" {
